@@ -10,7 +10,7 @@ import copy
 
 import pywbem
 from pywbem import (CIMError, CIMInstance, CIMInstanceName, CIMClassName,
-                    CIMDateTime)
+                    CIMDateTime, CIMClass)
 
 from . import modelgen as mg, opgen
 
@@ -34,6 +34,13 @@ def canon_scalar(v):
         return ('i', int(v))
     if isinstance(v, str):
         return ('s', str(v))
+    if isinstance(v, CIMInstance):
+        return ('inst', v.classname.lower(), tuple(sorted(
+            ((n.lower(), p.type, canon_value(p.value))
+             for n, p in v.properties.items()), key=repr)))
+    if isinstance(v, CIMClass):
+        return ('cls', v.classname.lower(),
+                tuple(sorted(n.lower() for n in v.properties)))
     return ('?', repr(v))
 
 
@@ -159,12 +166,19 @@ def scramble(obj, depth=0):
             v = p.value
             try:
                 if isinstance(v, list):
+                    for x in v:
+                        if isinstance(x, CIMInstance):
+                            scramble(x, depth + 1)
                     v.append(v[0] if v else None)
                     if v and isinstance(v[0], str) and \
                             not isinstance(v[0], CIMDateTime):
                         v[0] = 'mut'
-                elif isinstance(v, CIMInstanceName):
+                elif isinstance(v, (CIMInstanceName, CIMInstance)):
                     scramble(v, depth + 1)
+                elif isinstance(v, CIMClass):
+                    v.classname = v.classname + 'Mut'
+                    for pn in list(v.properties.keys())[:1]:
+                        del v.properties[pn]
                 elif isinstance(v, bool):
                     p.value = not v
                 elif isinstance(v, str) and not isinstance(v, CIMDateTime):
